@@ -20,6 +20,9 @@ type APIConfig struct {
 	State  string `json:"state"` // empty | started | degraded | wo
 	Extra  string `json:"extra"` // state of the extra stand-alone node: initial | closed | open | rebuilding
 	Blocks int    `json:"blocks"`
+	// Drop: requests of the controller to its replicas (pattern "METHOD path?action")
+	// that get no HTTP answer once (the replica died between two requests)
+	Drop []string `json:"drop,omitempty"`
 }
 
 type apiProbe struct {
@@ -132,6 +135,11 @@ func apiServerChild() int {
 			}
 		}
 	}()
+	for _, pat := range cfg.Drop {
+		for _, n := range st.Nodes {
+			n.DropRest(pat, 1)
+		}
+	}
 	ctrlIP := nodeIP(st.slot, 200)
 	ln, err := net.Listen("tcp", ctrlIP+":9501")
 	if err != nil {
